@@ -77,6 +77,8 @@ func (e *Engine) generate(prop string, only string) *runResult {
 			}
 		} else if prop != "" && !contractMentions(c, prop) {
 			continue
+		} else if c.ThoroughOnly && e.tier != "thorough" {
+			continue
 		}
 		names = append(names, key)
 	}
